@@ -5,6 +5,7 @@ import (
 	"go/constant"
 	"go/token"
 	"go/types"
+	"strings"
 
 	"golang.org/x/tools/go/ssa"
 
@@ -21,6 +22,7 @@ func init() {
 			"R3: DryRun/MeasurementOnly are never stored to, and their address is taken only in package cmd, where it flows to nothing but the destination argument of pflag's BoolVar/BoolVarP (directly or through helpers of package cmd; never stored or handed to another flag's parser), which justifies treating all loads as one flag. " +
 			"R4: what is printed under measurement-only and what SignDoc signs derive from one GoldenMeasurement call result. " +
 			"R5: the dry_run / measurement_only flags are bound to the DryRun / MeasurementOnly fields of the very Context installed with endorse.NewContext. " +
+			"R7: the printers of measurement-only mode look the per-count measurement map up only under the count the request names (or range over the map itself), never under a fixed table of counts. " +
 			"R6: the mode flags do not shape what is measured and signed: no decision in GoldenMeasurement's call closure derives from DryRun/MeasurementOnly, and no store to a Context field that closure reads is conditional on a mode flag. " +
 			"Not covered: equality of reported values as bytes; side effects inside VersionControl implementations' ReleasePath/Result (pure by interface contract).",
 		Assumptions: []string{"go/types, go/ssa, VTA call graph", "VersionControl.ReleasePath/RetriableError/Result do not write files or commit (interface documentation)"},
@@ -249,6 +251,70 @@ func runC15(c *Ctx) {
 		c.S.Floor("R4", "consumers of the golden measurement in VirtualFirmware", 2, n)
 	} else if len(gmCalls) > 1 {
 		c.S.Bad("R4", "endorse.VirtualFirmware", c.pos(vf.Pos()), "more than one GoldenMeasurement computation: printed and signed values may differ")
+	}
+
+	// ---- R7: the printers of measurement-only mode report what is in the document ----
+	// A function of package endorse that is handed golden-measurement content (other than SignDoc) and prints reads
+	// the per-count measurement map either by ranging over the map itself or by looking up the count the request
+	// names (a field of the request, LaunchVmsas): a lookup keyed by anything else — a fixed table of supported
+	// counts — skips the entries the table does not know, and the run reports fewer measurements than a real run signs.
+	{
+		nLook := 0
+		for _, f := range c.P.RepoFunctions() {
+			if load.RelPkg(f) != "endorse" || c.isTestFunc(f) || f.Blocks == nil || f == sd || f == gm || !takesGolden(f) {
+				continue
+			}
+			prints := len(callsIn(f, func(call ssa.CallInstruction) bool {
+				g := call.Common().StaticCallee()
+				return g != nil && g.Pkg != nil && g.Pkg.Pkg.Path() == "fmt" && strings.HasPrefix(g.Name(), "Print")
+			})) > 0
+			if !prints {
+				continue
+			}
+			for _, b := range f.Blocks {
+				for _, in := range b.Instrs {
+					if rg, isRange := in.(*ssa.Range); isRange {
+						if _, isMap := rg.X.Type().Underlying().(*types.Map); isMap && sl.Derives(rg.X, func(v ssa.Value) bool { return isGoldenType(v.Type()) }) {
+							nLook++ // ranging over the map reports every entry
+						}
+						continue
+					}
+					lk, ok := in.(*ssa.Lookup)
+					if !ok {
+						continue
+					}
+					if _, isMap := lk.X.Type().Underlying().(*types.Map); !isMap {
+						continue
+					}
+					if !sl.Derives(lk.X, func(v ssa.Value) bool { return isGoldenType(v.Type()) }) {
+						continue
+					}
+					nLook++
+					fromRequest := sl.Derives(lk.Index, func(v ssa.Value) bool {
+						u, ok := v.(*ssa.UnOp)
+						if !ok || u.Op != token.MUL {
+							return false
+						}
+						fa, ok := u.X.(*ssa.FieldAddr)
+						return ok && flow.FieldName(fa) == "LaunchVmsas"
+					})
+					fromRange := sl.Derives(lk.Index, func(v ssa.Value) bool {
+						ex, ok := v.(*ssa.Extract)
+						if !ok {
+							return false
+						}
+						nx, ok := ex.Tuple.(*ssa.Next)
+						if !ok {
+							return false
+						}
+						rg, ok := nx.Iter.(*ssa.Range)
+						return ok && sl.Derives(rg.X, func(w ssa.Value) bool { return isGoldenType(w.Type()) })
+					})
+					c.S.Check(fromRequest || fromRange, "R7", load.FuncName(f)+":measurement lookup", c.pos(lk.Pos()), "keyed by the request's own count (or a key of the map itself)", "the printer looks a measurement up under a key that is neither the count the request names nor a key of the map: entries outside that key set (a count the fixed table does not list) are signed by a real run and not reported by a measurement-only run")
+				}
+			}
+		}
+		c.S.Floor("R7", "measurement map reads (lookups, ranges) in the printers of package endorse", 1, nLook)
 	}
 
 	// ---- R5: flag wiring ----
